@@ -40,6 +40,12 @@ def make_case(rng, i):
                         async_modes=("none", "none", "all", "half"))
     case["send_budget"] = rng.choice([3, 5])
     sc = case["scenario"]
+    # a raising guard is a failing callback too (method guards only; 5% of the valuations)
+    for st in sc.steps:
+        if st.get("val"):
+            for nm, g in sc.spec["guards"].items():
+                if g["kind"] == "method" and rng.random() < 0.05:
+                    st["val"][nm] = "raise"
     # pass 1: fault-free, counts the crash points
     run = Run(sc, send_budget=case["send_budget"])
     log = run.execute()
